@@ -219,11 +219,23 @@ func (in *instr) rewrite() ([]byte, error) {
 		case *ast.GoStmt:
 			in.needVrt = true
 			in.stats["go_stmts"]++
+			// The arguments of a go statement are evaluated by the parent at the
+			// statement: bind them to temporaries before entering the closure.
+			site := in.pkg.Name + "." + in.funcName + ":go " + exprString(in.fset, n.Call.Fun)
+			var pre []ast.Stmt
+			for i, a := range n.Call.Args {
+				if isLiteralArg(a) {
+					continue
+				}
+				tmp := ast.NewIdent("_vrtArg" + strconv.Itoa(i))
+				pre = append(pre, &ast.AssignStmt{Lhs: []ast.Expr{tmp}, Tok: token.DEFINE, Rhs: []ast.Expr{a}})
+				n.Call.Args[i] = ast.NewIdent(tmp.Name)
+			}
 			call := &ast.CallExpr{Fun: vrtSel("Go"), Args: []ast.Expr{
-				strLit(in.pkg.Name + "." + in.funcName + ":go " + exprString(in.fset, n.Call.Fun)),
+				strLit(site),
 				&ast.FuncLit{Type: &ast.FuncType{Params: &ast.FieldList{}}, Body: &ast.BlockStmt{List: []ast.Stmt{&ast.ExprStmt{X: n.Call}}}},
 			}}
-			c.Replace(&ast.ExprStmt{X: call})
+			c.Replace(&ast.BlockStmt{List: append(pre, &ast.ExprStmt{X: call})})
 		case *ast.SelectorExpr:
 			if in.isPkgIdent(n.X, "sync") {
 				switch n.Sel.Name {
@@ -365,6 +377,17 @@ func pureExpr(e ast.Expr) bool {
 		return pureExpr(x.X)
 	case *ast.StarExpr:
 		return pureExpr(x.X)
+	}
+	return false
+}
+
+// isLiteralArg: constants and nil need no temporary (and untyped nil cannot have one).
+func isLiteralArg(e ast.Expr) bool {
+	switch x := e.(type) {
+	case *ast.BasicLit:
+		return true
+	case *ast.Ident:
+		return x.Name == "nil" || x.Name == "true" || x.Name == "false"
 	}
 	return false
 }
